@@ -203,13 +203,17 @@ func directedCases(mode string) []Case {
 		{K: "SetTransientState", A: 1, S: 1, V: 1}, {K: "BindTokB"},
 		{K: "GetData", A: 1, S: 1}, {K: "GetBalance", A: 1}, {K: "GetFT", A: 1, S: 0}, {K: "GetCode", A: 1},
 	}
-	posts := [][]Op{nil, {{K: "SetNonce", A: 1, V: 3}}, {{K: "SetData", A: 1, S: 2, V: 2}}, {{K: "AddFT", A: 1, S: 0, V: 1}}}
+	posts := [][]Op{nil, {{K: "SetNonce", A: 1, V: 3}}, {{K: "SetData", A: 1, S: 2, V: 2}}, {{K: "AddFT", A: 1, S: 0, V: 1}},
+		{{K: "Commit", D: true}, {K: "SetData", A: 1, S: 2, V: 2}}, {{K: "Finalise", D: true}, {K: "Suicide", A: 1}}}
+	// surviving operations between the setup and the region: a pending write followed by reads of the same slot
+	pres := [][]Op{nil, {{K: "SetData", A: 1, S: 3, V: 3}, {K: "GetCommittedState", A: 1, S: 0}}, {{K: "SetState", A: 1, S: 0, V: 3}, {K: "GetCommittedState", A: 1, S: 0}},
+		{{K: "GetData", A: 1, S: 1}, {K: "GetBalance", A: 1}}}
 	idx := 1000000
 	for _, su := range setups {
 		for _, m := range muts {
 			for pi, post := range posts {
-				for nest := 0; nest < 2; nest++ {
-					if nest == 1 && pi != 0 {
+				for nest := 0; nest < 2+len(pres)-1; nest++ {
+					if nest >= 1 && pi != 0 {
 						continue
 					}
 					var h []Op
@@ -217,6 +221,9 @@ func directedCases(mode string) []Case {
 						h = append(h, Op{K: "Bind"})
 					}
 					h = append(h, su...)
+					if nest >= 2 {
+						h = append(h, pres[nest-1]...)
+					}
 					h = append(h, Op{K: "Prepare", V: 1}, Op{K: "Snapshot", ID: 1})
 					if nest == 1 {
 						h = append(h, Op{K: "Snapshot", ID: 2}, m, Op{K: "Revert", ID: 2}, m)
